@@ -14,7 +14,7 @@ PARTIAL = [
     "cos / sin of the angle are passed to the model as the doubles Python computes (no use of c^2 + s^2 = 1 is made; the theorem holds for any c, s)",
     "object identity (inplace vs copy) is a runtime notion: checked by the oracle (id(), snapshot of the input), not a Lean theorem",
     "containers: checked by the oracle; the Lean model is per shape",
-    "fully assembled `rotate` statements (model's rotate on a Shape) are given for volumes (rational and not); for curves and surfaces they follow from the same three pieces (rotate_net_*, affine_maps_compose, transformed_*_point) but are not written out; rational statements assume positive weights",
+    "end-to-end statements (model's translate / scale / rotate on a Shape, evaluation through the span search, whole closed domain, curves / surfaces / volumes, rational and not, any finite sequence of calls) assume a well-formed shape (ShapeWF: sorted knots, at least degree + 1 control points and a non-empty last span per direction, net of the right size) and, for rational shapes, positive weights; rotate is stated for 2-D and 3-D points (the only cases the library's formulas are meant for)",
 ]
 
 
